@@ -1916,7 +1916,7 @@ class Evaluator:
         t = tuple(self._fold_records(c) if isinstance(c, tuple) else c for c in t)
         if isinstance(t[0], str) and t[0] in ("attr", "sub") and t[1][0] == "call" and t[1][1][0] == "global" and t[1][1][2] == "class":
             if t[0] == "attr":
-                v = self._record_field(t[1], t[2])
+                v = self._record_get(t[1], attr=t[2]) if self._is_record(t[1]) else None
                 return t if v is None else v
             ci = self.index.class_by_qual(t[1][1][1])
             if ci is not None and any(b.split(".")[-1] == "NamedTuple" for b in ci.ext_bases) and not ci.bases \
